@@ -28,6 +28,13 @@ class Boom(Exception):
     pass
 
 
+class BoomBase(BaseException):
+    """A user exception that is not an `Exception` (like KeyboardInterrupt, SystemExit, GeneratorExit)."""
+
+
+ESCAPES = (Boom, BoomBase, KeyboardInterrupt, SystemExit)
+
+
 class InjectedFault(OSError):
     pass
 
@@ -53,6 +60,7 @@ def run(ctx):
                 core.leanchecker(ctx, ["ButlerModel.Props.C07"])
     with repo.Scratch("verif-c07-") as tmp:
         programs(ctx, built, tmp)
+        cache_programs(ctx, built, tmp)
         faults(ctx, tmp)
 
 
@@ -146,20 +154,29 @@ def programs(ctx, model_ok, tmp):
     def viol(what, key, replay):
         ctx.violations.append(core.Violation(what=what, key=key, replay=replay))
 
-    def execute(body, base):
+    from lsst.daf.butler.registry import ConflictingDefinitionError
+
+    existing = b.put({"keep": 0}, dt, instrument="I", detector=N - 1)
+    kinds = {"boom": Boom, "base": BoomBase, "kbd": KeyboardInterrupt, "exit": SystemExit}
+
+    def execute(body, base, how):
         for st in body:
             if st[0] == "P":
                 b.put({"v": st[1]}, dt, instrument="I", detector=base + st[1])
             elif st[0] == "F":
-                raise Boom()
+                if how == "reput":
+                    # a statement that fails by itself: storing again under a resolved ref the datastore already holds
+                    b.put({"keep": 1}, existing)
+                    raise AssertionError("re-put of a stored resolved ref was accepted")
+                raise kinds[how]()
             elif st[0] == "B":
                 with b.transaction():
-                    execute(st[1], base)
+                    execute(st[1], base, how)
             else:
                 try:
                     with b.transaction():
-                        execute(st[1], base)
-                except Boom:
+                        execute(st[1], base, how)
+                except ESCAPES + (ConflictingDefinitionError,):
                     pass
 
     corpus = [[("P", 1), ("T", [("P", 2), ("F",)]), ("P", 3), ("F",)]]  # the recorded witness first
@@ -174,13 +191,15 @@ def programs(ctx, model_ok, tmp):
             break
         before = snapshot(b, root, [dt])
         failed = False
+        how = "boom" if n < len(corpus) else rng.choice(["boom", "boom", "base", "kbd", "exit", "reput"])
         try:
             with b.transaction():
-                execute(body, base)
-        except Boom:
+                execute(body, base, how)
+        except ESCAPES + (ConflictingDefinitionError,):
             failed = True
         after = snapshot(b, root, [dt])
         ctx.evaluations += 1
+        ctx.count(f"failure-kind:{how}")
         text = enc(body)
         if "T " in text:
             ctx.nontrivial.add(text)
@@ -198,8 +217,9 @@ def programs(ctx, model_ok, tmp):
             d = diff(before, after)
             if d:
                 caught_inner = "T " in text
-                viol(f"failed transaction block `{text}`: " + "; ".join(d), "nested-caught-failure-leaks" if caught_inner else f"block:{text}",
-                     {"kind": "program", "program": text, "diff": d})
+                viol(f"failed transaction block `{text}` (failure kind {how}): " + "; ".join(d),
+                     "nested-caught-failure-leaks" if caught_inner and how == "boom" else f"block:{how}:{text}",
+                     {"kind": "program", "program": text, "failure": how, "diff": d})
                 # repair the damage so that later programs start clean
                 b._datastore._transaction = None
         elif after["txn_depth"] != before["txn_depth"]:
@@ -218,6 +238,196 @@ def programs(ctx, model_ok, tmp):
         ctx.extra["correspondence_disagreements"] = nd
     else:
         ctx.notes.append("model not built: correspondence skipped")
+
+
+# ------------------------------------------------------------------ cached registry rows and prune inside blocks
+def gen_prog2(rng, depth, counter, with_prune):
+    body = []
+    for _ in range(rng.randint(1, 4)):
+        r = rng.random()
+        if r < 0.33:
+            counter[0] += 1
+            body.append(("I", counter[0]))
+        elif r < 0.58:
+            body.append(("R",))
+        elif r < 0.68 and with_prune:
+            body.append(("U", rng.choice([1, 2])))
+        elif r < 0.78:
+            body.append(("F",))
+        elif depth > 0 and r < 0.92:
+            body.append(("T", gen_prog2(rng, depth - 1, counter, with_prune)))
+        elif depth > 0:
+            body.append(("B", gen_prog2(rng, depth - 1, counter, with_prune)))
+        else:
+            body.append(("R",))
+    return body
+
+
+def enc2(body):
+    out = []
+    for st in body:
+        if st[0] in ("I", "U"):
+            out.append(f"{st[0]} {st[1]}")
+        elif st[0] in ("R", "F"):
+            out.append(st[0])
+        else:
+            out.append(f"{st[0]} {len(st[1])} " + enc2(st[1]))
+    return " ".join(out)
+
+
+def cache_programs(ctx, model_ok, tmp):
+    """Programs over registry rows that sit behind read-through caches (dimension records, dataset types,
+    collection records inside a caching context) and over pruneDatasets inside blocks."""
+    import contextlib
+
+    from lsst.daf.butler import Butler, DatasetType
+
+    rng = ctx.rng
+    root = os.path.join(tmp, "c")
+    b = repo.make_butler(root, run="r")
+    b.registry.insertDimensionData("instrument", {"name": "I"})
+    b.registry.insertDimensionData("detector", {"instrument": "I", "id": 100000, "full_name": "seed"})
+    dt = DatasetType("dt", {"instrument", "detector"}, "StructuredDataDict", universe=b.dimensions)
+    b.registry.registerDatasetType(dt)
+    truth = Butler.from_config(root)
+    req, impl = [], []
+    W = 40  # ids per program window
+
+    def viol(what, key, replay):
+        ctx.violations.append(core.Violation(what=what, key=key, replay=replay))
+
+    def mk(kind, base):
+        if kind == "dim":
+            return dict(
+                ins=lambda n: b.registry.insertDimensionData("detector", {"instrument": "I", "id": base + n, "full_name": f"d{base + n}"}),
+                seen=lambda n: b.registry.expandDataId(instrument="I", detector=base + n),
+                truth=lambda: {r.id - base for r in truth.registry.queryDimensionRecords("detector") if base < r.id <= base + W},
+            )
+        if kind == "dstype":
+            return dict(
+                ins=lambda n: b.registry.registerDatasetType(DatasetType(f"ty{base + n}", {"instrument", "detector"}, "StructuredDataDict",
+                                                                         universe=b.dimensions)),
+                seen=lambda n: b.registry.getDatasetType(f"ty{base + n}"),
+                truth=lambda: {int(d.name[2:]) - base for d in truth.registry.queryDatasetTypes() if d.name.startswith("ty")
+                               and base < int(d.name[2:]) <= base + W},
+            )
+        return dict(
+            ins=lambda n: b.registry.registerRun(f"run{base + n}"),
+            seen=lambda n: b.registry.getCollectionType(f"run{base + n}"),
+            truth=lambda: {int(c[3:]) - base for c in truth.registry.queryCollections() if c.startswith("run") and base < int(c[3:]) <= base + W},
+        )
+
+    corpus = [("dim", [("I", 3), ("R",), ("F",)]), ("dstype", [("I", 3), ("R",), ("F",)]), ("coll", [("I", 3), ("R",), ("F",)]),
+              ("dim", [("U", 1), ("F",)]), ("dim", [("T", [("I", 3), ("R",), ("F",)]), ("R",)])]
+    n_prog = 45 if ctx.quick() else 1200
+    base = 0
+    for n in range(n_prog + len(corpus)):
+        counter = [2]
+        if n < len(corpus):
+            kind, body = corpus[n]
+            counter[0] = 3
+        else:
+            kind = rng.choice(["dim", "dim", "dstype", "coll"])
+            body = gen_prog2(rng, rng.choice([1, 2, 3]), counter, kind == "dim")
+        api = mk(kind, base)
+        cands = list(range(1, counter[0] + 1))
+
+        def view():
+            out = set()
+            for i in cands:
+                try:
+                    api["seen"](i)
+                    out.add(i)
+                except Exception:
+                    pass
+            return out
+
+        def execute(body):
+            for st in body:
+                if st[0] == "I":
+                    api["ins"](st[1])
+                elif st[0] == "R":
+                    view()
+                elif st[0] == "U":
+                    ref = b.find_dataset(dt, instrument="I", detector=base + st[1], collections="r")
+                    if ref is not None:
+                        b.pruneDatasets([ref], purge=True, unstore=True, disassociate=True)
+                elif st[0] == "F":
+                    raise exc()
+                elif st[0] == "B":
+                    with b.transaction():
+                        execute(st[1])
+                else:
+                    try:
+                        with b.transaction():
+                            execute(st[1])
+                    except ESCAPES:
+                        pass
+
+        def observe():
+            truth.registry.refresh()
+            files = set()
+            for dp, _, fs in os.walk(os.path.join(root, "r")):
+                for f in fs:
+                    d = int(f.split("_")[2][1:]) - base
+                    if 0 < d <= W:
+                        files.add(d)
+            ds = {r.dataId["detector"] - base for r in truth.registry.queryDatasets(dt, collections="r") if base < r.dataId["detector"] <= base + W}
+            return {"view": view(), "rows": api["truth"](), "ds": ds, "files": files}
+
+        cm = b.registry.caching_context() if kind == "coll" else contextlib.nullcontext()
+        with cm:
+            api["ins"](1), api["ins"](2)
+            if kind == "dim":
+                for i in (1, 2):
+                    b.put({"v": i}, dt, instrument="I", detector=base + i)
+            before = observe()
+            failed = False
+            exc = Boom if n < len(corpus) else rng.choice([Boom, Boom, BoomBase, KeyboardInterrupt, SystemExit])
+            try:
+                with b.transaction():
+                    execute(body)
+            except ESCAPES:
+                failed = True
+            after = observe()
+        text = enc2(body)
+        ctx.evaluations += 1
+        ctx.count(f"cache-program:{kind}:{'failed' if failed else 'committed'}")
+        if "I " in text and "R" in text.split() and ("F" in text.split()):
+            ctx.nontrivial.add((kind, text))
+        fmt = lambda s_: ",".join(map(str, sorted(s_))) or "-"  # noqa: E731
+        req.append(f"txc run 1 {fmt(before['rows'])} {fmt(before['ds'])} B {len(body)} {text}")
+        impl.append(f"failed={'true' if failed else 'false'} view={fmt(after['view'])} rows={fmt(after['rows'])} ds={fmt(after['ds'])} files={fmt(after['files'])}")
+        ctx.sample({"kind": kind, "program": text, "implementation": impl[-1]}, cap=4)
+        what = {"dim": "dimension records (expandDataId)", "dstype": "dataset types (getDatasetType)",
+                "coll": "collections inside a caching context (getCollectionType)"}[kind]
+        if after["view"] != after["rows"]:
+            viol(f"after block `{text}` ({'failed' if failed else 'committed'}) the cached view of {what} shows {sorted(after['view'])} "
+                 f"while the database has {sorted(after['rows'])}", f"rolled-back-rows-stay-cached:{kind}" if failed or "T " in text else f"cache:{kind}:{text}",
+                 {"kind": "cache-program", "cache": kind, "program": text})
+        if failed:
+            if (after["rows"], after["ds"]) != (before["rows"], before["ds"]):
+                viol(f"failed block `{text}`: registry rows {sorted(before['rows'])}/{sorted(before['ds'])} -> {sorted(after['rows'])}/{sorted(after['ds'])}",
+                     f"cache-block-registry:{text}", {"kind": "cache-program", "cache": kind, "program": text})
+            if after["files"] != before["files"]:
+                toks = text.split()
+                pruned_ids = {int(toks[i + 1]) for i, t_ in enumerate(toks) if t_ == "U"}
+                # the listed finding covers exactly: artifacts of datasets pruned inside the block are gone, nothing else differs
+                pruned = after["files"] <= before["files"] and (before["files"] - after["files"]) <= pruned_ids
+                viol(f"failed block `{text}`: artifacts {sorted(before['files'])} -> {sorted(after['files'])} while the registry still has datasets "
+                     f"{sorted(after['ds'])}", "prune-inside-failed-block-loses-artifact" if pruned else f"cache-block-files:{text}",
+                     {"kind": "cache-program", "cache": kind, "program": text})
+        base += W
+    if model_ok:
+        got = core.driver(req)
+        nd = 0
+        for line, m, i in zip(req, got, impl):
+            if m != i:
+                nd += 1
+                if nd <= 5:
+                    ctx.broken.append(f"correspondence: `{line}` model={m} implementation={i}")
+        ctx.extra["cache_correspondence_lines"] = len(req)
+        ctx.extra["cache_correspondence_disagreements"] = nd
 
 
 # ------------------------------------------------------------------ fault enumeration
